@@ -643,7 +643,7 @@ fn gen_cases(ctx: &Ctx) -> Vec<Case> {
         cases.push(Case { side: "variant", class: c.to_string(), seed: ctx.seed.wrapping_mul(1000) + i as u64 });
     }
     // seeded random part
-    let n = ctx.budget("sets", 6, 480);
+    let n = ctx.budget("sets", 12, 480);
     let mut rng = Rng::new(ctx.seed, 0xC20, 0);
     for i in 0..n {
         // the multi-block classes are the expensive ones: keep them rare
